@@ -74,6 +74,29 @@ func (u *Universe) queries() []query {
 	return qs
 }
 
+// allQueries: the base queries plus the two further accessors of core.StateReader the model covers:
+// "lu" = ContractStorageLastUpdatedBlock per (address, slot), "casm2" = CompiledClassHashV2 per class.
+// The order is the token order of the driver's `dump`: per address class hash, nonce, the slots,
+// the last-update blocks of the slots; per class declared-at, compiled class hash, compiled class hash v2.
+func (u *Universe) allQueries() []query {
+	var qs []query
+	for i := range u.Addrs {
+		a := &u.Addrs[i]
+		qs = append(qs, query{Kind: "classhash", Addr: a}, query{Kind: "nonce", Addr: a})
+		for j := range u.Slots {
+			qs = append(qs, query{Kind: "storage", Addr: a, Slot: &u.Slots[j]})
+		}
+		for j := range u.Slots {
+			qs = append(qs, query{Kind: "lu", Addr: a, Slot: &u.Slots[j]})
+		}
+	}
+	for i := range u.Classes {
+		c := &u.Classes[i]
+		qs = append(qs, query{Kind: "class", Addr: c}, query{Kind: "casm", Addr: c}, query{Kind: "casm2", Addr: c})
+	}
+	return qs
+}
+
 func errToken(err error) string {
 	if errors.Is(err, db.ErrKeyNotFound) {
 		return "nf"
@@ -129,6 +152,19 @@ func readOne(r core.StateReader, q query) string {
 			}
 			f := felt.Felt(v)
 			tok = hx(&f)
+		case "casm2":
+			v, err := r.CompiledClassHashV2((*felt.SierraClassHash)(q.Addr))
+			if err != nil {
+				return err
+			}
+			f := felt.Felt(v)
+			tok = hx(&f)
+		case "lu":
+			b, err := r.ContractStorageLastUpdatedBlock((*felt.Address)(q.Addr), q.Slot)
+			if err != nil {
+				return err
+			}
+			tok = fmt.Sprintf("%x", b)
 		}
 		return nil
 	})
@@ -162,6 +198,9 @@ func sameDefinition(h *felt.Felt, got core.ClassDefinition) bool {
 //     and the class hash may be 0 or nf.
 func expected(st *lib.AbsState, q query, head bool) []string {
 	switch q.Kind {
+	case "lu", "casm2":
+		// need the chain, not only the state: Engine.expectedOn
+		return nil
 	case "class":
 		if at, ok := st.Classes[*q.Addr]; ok {
 			return []string{fmt.Sprintf("at%x", at)}
@@ -201,11 +240,16 @@ func expected(st *lib.AbsState, q query, head bool) []string {
 
 // expectedOn: the oracle for one node. Where `expected` leaves the answer for the system contracts
 // 0x1/0x2 open (class hash, nonce, zero slots: 0 or nf), histories in which no block has left a
-// system contract empty are held to what the theorems say (Props.new_system_existence_nodrain): on
-// the new backend the contract exists exactly in the states in which it has a non-zero slot — class
-// hash, nonce and zero slots read 0 there and nf elsewhere (head storage: always 0); on the legacy
-// backend class hash and nonce must read 0 wherever it has a non-zero slot.
+// system contract with an entry in the diff and an empty storage are held to what the theorems say
+// (Props.new_system_existence_nodrain, legacy_system_existence_nodrain, legacy_system_absent_noempty):
+// on BOTH backends the contract exists exactly in the states in which it has a non-zero slot — class
+// hash, nonce and zero slots read 0 there and nf elsewhere (head storage: always 0, the head readers
+// do not probe). In particular a system contract whose only writes were reverted does not exist at
+// any block of the chain that grows afterwards.
 func (e *Engine) expectedOn(n *node, st *lib.AbsState, q query, head bool) []string {
+	if q.Kind == "lu" || q.Kind == "casm2" {
+		return e.expectedAux(st, q, head)
+	}
 	want := expected(st, q, head)
 	if q.Kind == "class" || q.Kind == "casm" || !isSystem(q.Addr) || e.emptied || len(want) != 2 {
 		return want
@@ -219,16 +263,112 @@ func (e *Engine) expectedOn(n *node, st *lib.AbsState, q query, head bool) []str
 		}
 	}
 	switch {
-	case n.kind == "new" && q.Kind == "storage" && head:
+	case q.Kind == "storage" && head:
 		return []string{"0"}
-	case n.kind == "new" && nonEmpty:
+	case nonEmpty:
 		return []string{"0"}
-	case n.kind == "new":
-		return []string{"nf"}
-	case nonEmpty && q.Kind != "storage":
+	case n.kind == "new" && !head && sysProbeFixed():
+		// variant with proposed-fixes/C03-history-system-contract-no-deploy-probe.diff: the historical
+		// reader of the new backend does not probe the system contracts, they exist at every block
 		return []string{"0"}
 	}
-	return want
+	return []string{"nf"}
+}
+
+func sysProbeFixed() bool {
+	_, sp, _ := probeVariant()
+	return sp
+}
+
+// blockOf: the number of the block whose abstract state st is (-1: not a state of the current chain).
+func (e *Engine) blockOf(st *lib.AbsState) int {
+	for i := len(e.g.States) - 1; i >= 0; i-- {
+		if e.g.States[i] == st {
+			return i
+		}
+	}
+	return -1
+}
+
+// expectedAux: the oracle for the two accessors whose answer is a function of the chain.
+//
+// "lu" (ContractStorageLastUpdatedBlock, rpc v10 getStorageAt.last_update_block): the most recent
+// block up to the view's block whose state diff lists the slot, 0 when there is none. Where the
+// property leaves it open — a diff that lists the slot with the value zero while the slot holds zero
+// (nothing is "updated") — both readings are admitted: with and without such blocks.
+//
+// "casm2" (CompiledClassHashV2): the blake2s compiled class hash that came with the declaration
+// of the class in the chain up to the view's block, not-found for a class not declared there. On a
+// historical view of a block BEFORE the declaration the hash itself is admitted too (it is a
+// function of the class definition, not of the state; juno answers it on every view).
+func (e *Engine) expectedAux(st *lib.AbsState, q query, head bool) []string {
+	i := e.blockOf(st)
+	if i < 0 || i >= len(e.descs) {
+		return []string{"?"}
+	}
+	switch q.Kind {
+	case "lu":
+		strict, loose := 0, 0
+		for j := 0; j <= i; j++ {
+			inner, ok := e.descs[j].Diff.StorageDiffs[*q.Addr]
+			if !ok {
+				continue
+			}
+			v, ok := inner[*q.Slot]
+			if !ok {
+				continue
+			}
+			loose = j
+			changed := !v.IsZero()
+			if !changed && j > 0 {
+				if c := e.g.States[j-1].Contracts[*q.Addr]; c != nil {
+					if old, ok := c.Storage[*q.Slot]; ok && !old.IsZero() {
+						changed = true
+					}
+				}
+			}
+			if changed {
+				strict = j
+			}
+		}
+		if strict == loose {
+			return []string{fmt.Sprintf("%x", loose)}
+		}
+		return []string{fmt.Sprintf("%x", loose), fmt.Sprintf("%x", strict)}
+	default: // casm2
+		v2 := func(upTo int) string {
+			for j := upTo; j >= 0; j-- {
+				if ch, ok := e.descs[j].Diff.DeclaredV1Classes[*q.Addr]; ok {
+					if isV2(e.descs[j].Version) {
+						return hx(ch)
+					}
+					if fx := sierraByHash(q.Addr); fx != nil {
+						return hx(&fx.casm2)
+					}
+					return "?"
+				}
+			}
+			return "nf"
+		}
+		want := []string{v2(i)}
+		if !head && want[0] == "nf" {
+			if later := v2(len(e.descs) - 1); later != "nf" {
+				want = append(want, later)
+			}
+		}
+		if migValFix() && want[0] != "nf" {
+			// variant with proposed-fixes/C03-casm-migration-stores-the-hash-of-the-diff.diff: a migration
+			// in the chain replaces the blake2s hash of the record by the hash the diff carries
+			for j := len(e.descs) - 1; j >= 0; j-- {
+				if mh, ok := e.descs[j].Diff.MigratedClasses[felt.SierraClassHash(*q.Addr)]; ok {
+					f := felt.Felt(mh)
+					want = append(want, hx(&f))
+					break
+				}
+			}
+		}
+		return want
+	}
 }
 
 func contains(xs []string, x string) bool {
@@ -264,7 +404,7 @@ type view struct {
 
 func qjson(q query) map[string]any {
 	m := map[string]any{"kind": q.Kind}
-	if q.Kind == "class" || q.Kind == "casm" {
+	if q.Kind == "class" || q.Kind == "casm" || q.Kind == "casm2" {
 		m["class"] = "0x" + hx(q.Addr)
 	} else {
 		m["addr"] = "0x" + hx(q.Addr)
@@ -303,11 +443,65 @@ func (e *Engine) openViews(n *node) []view {
 	}
 	open("head", h-1, func() (core.StateReader, func() error, error) { return n.bc.HeadState() })
 	for i := 0; i < h; i++ {
-		open("num", i, func() (core.StateReader, func() error, error) { return n.bc.StateAtBlockNumber(uint64(i)) })
+		if n.seeded && i < n.floor {
+			// below the floor of this process: the retention check refuses the view by number (what
+			// the model says; that it is refused is C16's property, not a violation of this one)
+			e.belowFloor(n, i)
+		} else {
+			open("num", i, func() (core.StateReader, func() error, error) { return n.bc.StateAtBlockNumber(uint64(i)) })
+		}
 		hash := e.g.Bundles[i].Block.Hash
 		open("hash", i, func() (core.StateReader, func() error, error) { return n.bc.StateAtBlockHash(hash) })
 	}
 	return vs
+}
+
+// belowFloor: a block number below the seeded floor. The model says "no view"; the real node must
+// agree (Mismatch otherwise).
+func (e *Engine) belowFloor(n *node, i int) {
+	var r core.StateReader
+	err, pan, _ := lib.Try(func() error {
+		var err error
+		r, _, err = n.bc.StateAtBlockNumber(uint64(i))
+		return err
+	})
+	impl := "noview"
+	switch {
+	case pan:
+		impl = "panic"
+	case err == nil && r != nil:
+		impl = "view"
+	case err != nil && !errors.Is(err, db.ErrKeyNotFound):
+		impl = errToken(err)
+	}
+	e.hit("view:num:below-the-seeded-floor")
+	mdl := "noview"
+	if ans, ok := e.ask(e.dumpLine(n, "num", i)); ok && ans != "noview" {
+		mdl = "view"
+	}
+	if e.res != nil && e.drv != nil {
+		e.res.Compared(1)
+	}
+	if impl != mdl {
+		e.fail(Failure{Sig: "model-" + n.kind + "-view-below-the-seeded-floor", What: fmt.Sprintf("%s (%s), floor %d: view of block %d by number: implementation %s, model %s", n.name, n.kind, n.floor, i, impl, mdl),
+			Query: map[string]any{"node": n.name, "n": i, "floor": n.floor, "impl": impl, "model": mdl}})
+	}
+}
+
+// dumpLine: the driver request for one view of a node (through the node's retention floor when its
+// process has a seeded one).
+func (e *Engine) dumpLine(n *node, label string, num int) string {
+	fl := ""
+	if n.seeded {
+		fl = fmt.Sprintf("fl %x ", n.floor)
+	}
+	switch label {
+	case "head":
+		return "dump " + n.kind + " " + fl + "head"
+	case "num":
+		return fmt.Sprintf("dump %s %snum %x", n.kind, fl, num)
+	}
+	return "dump " + n.kind + " " + fl + "hash " + hx(e.g.Bundles[num].Block.Hash)
 }
 
 // negativeViews: block numbers above the head and hashes of reverted blocks must not resolve.
@@ -358,21 +552,18 @@ func (e *Engine) CheckAll() {
 		return
 	}
 	e.reopen()
-	qs := e.u.queries()
+	qs := e.u.allQueries()
 	h := e.g.Height()
 	modelCache := map[string][]string{}
-	model := func(kind, label string, n int) []string {
+	model := func(nd *node, label string, n int) []string {
 		if e.drv == nil {
 			return nil
 		}
 		var line string
-		switch label {
-		case "head":
-			line = "dump " + kind + " head"
-		case "num":
-			line = fmt.Sprintf("dump %s num %x", kind, n)
-		default:
-			line = "dump " + kind + " hash " + hx(e.g.Bundles[n].Block.Hash)
+		if nd == nil {
+			line = fmt.Sprintf("dump abs num %x", n)
+		} else {
+			line = e.dumpLine(nd, label, n)
 		}
 		if v, ok := modelCache[line]; ok {
 			return v
@@ -398,7 +589,7 @@ func (e *Engine) CheckAll() {
 		for _, v := range views {
 			st := e.g.States[v.n]
 			headSt := e.g.States[h-1]
-			mt := model(n.kind, v.label, v.n)
+			mt := model(n, v.label, v.n)
 			if e.drv != nil && len(mt) != len(qs) {
 				// the view exists on the real node: the driver must answer it, token for token
 				e.fatal("driver dump of the %s view of block %d (%s): %d tokens, want %d: %.80s", v.label, v.n, n.kind, len(mt), len(qs), strings.Join(mt, " "))
@@ -413,13 +604,17 @@ func (e *Engine) CheckAll() {
 				if sample && (qi+len(e.steps)+v.n)%4 != 0 {
 					continue
 				}
+				if !e.full && q.Kind == "lu" && v.label != "head" && v.n < h-2 && (qi+len(e.steps)+v.n)%7 != 0 {
+					continue // the last-update blocks: always on the head view and on the views of the two
+					// newest blocks, a rotating seventh on the older views
+				}
 				got := readOne(v.reader, q)
 				want := e.expectedOn(n, st, q, v.label == "head")
 				rk := readKey(ni, v.label, v.n, qi)
 				if contains(want, got) {
 					nowOK[rk] = true
 				}
-				if v.label != "head" && !differs {
+				if v.label != "head" && !differs && q.Kind != "lu" && q.Kind != "casm2" {
 					if w2 := expected(headSt, q, false); w2[0] != want[0] {
 						differs = true
 					}
@@ -458,16 +653,20 @@ func (e *Engine) CheckAll() {
 			}
 		}
 		e.rpcCheck(n)
+		e.storeCheck(n)
 		// the Lean spec (Abs.at) must agree with the Go oracle state as well
 		if n.name == "src" && e.drv != nil {
 			for i := 0; i < h; i++ {
-				mt := model("abs", "num", i)
+				mt := model(nil, "num", i)
 				if len(mt) != len(qs) {
 					e.fatal("driver dump of the abstract state of block %d: %d tokens, want %d", i, len(mt), len(qs))
 					continue
 				}
 				for qi, q := range qs {
 					want := expected(e.g.States[i], q, false)
+					if want == nil {
+						want = e.expectedAux(e.g.States[i], q, false)
+					}
 					// the Lean spec answers with the first admissible answer (value / nf)
 					if !contains(want, mt[qi]) {
 						qj := qjson(q)
@@ -519,7 +718,7 @@ func (e *Engine) reportFreshAttr(n *node, label string, num int, q query, got st
 	h := e.g.Height()
 	kind := q.Kind
 	suffix := ""
-	if q.Kind != "class" && q.Kind != "casm" && isSystem(q.Addr) {
+	if q.Kind != "class" && q.Kind != "casm" && q.Kind != "casm2" && isSystem(q.Addr) {
 		kind = "sys" + kind
 		// the drain defect, and only it: the address was drained in this history AND the model
 		// of the code as found gives the same answer for this very read
@@ -553,16 +752,16 @@ func (e *Engine) modelAgrees(n *node, label string, num int, q query, got string
 	if e.drv == nil {
 		return false
 	}
-	line := "dump " + n.kind + " head"
+	line := e.dumpLine(n, "head", 0)
 	if label != "head" {
-		line = fmt.Sprintf("dump %s num %x", n.kind, num)
+		line = e.dumpLine(n, "num", num)
 	}
 	ans, ok := e.ask(line)
 	if !ok {
 		return false
 	}
 	t := strings.Fields(ans)
-	for i, x := range e.u.queries() {
+	for i, x := range e.u.allQueries() {
 		if x.Kind == q.Kind && x.Addr.Equal(q.Addr) && (x.Slot == nil) == (q.Slot == nil) && (x.Slot == nil || x.Slot.Equal(q.Slot)) {
 			return i < len(t) && t[i] == got
 		}
